@@ -125,7 +125,7 @@ UDrop ==       \* the last user reference goes away
 UShutFlag ==   \* shutdown(): flip the flag (under the gate) ...
   /\ Cur \in {"shutdown_wait", "shutdown_nowait"} /\ ~flag
   /\ flag' = TRUE
-  /\ Emit(<<Ev("ShutdownCall", "-", "shutdown", now, -1, -1, IF Cur = "shutdown_wait" THEN 1 ELSE 0, -1, -1, "top", <<>>)>>)
+  /\ Emit(<<Ev("ShutdownCall", "-", "shutdown", now, -1, -1, IF Cur = "shutdown_wait" THEN 1 ELSE 0, 0, 0, "top", <<>>)>>)
   /\ actor' = USER
   /\ UNCHANGED <<pc, upc, userRef, loopRef, pending, todo, exiting, evt, woken, wdl, plan, now, joined>>
 
